@@ -13,7 +13,8 @@ from ..common import quiet
 
 TEXTS = ['a', 'a0', 'a b', 'ab', 'A', 'b', ' ', 'ä', 'aé', 'aa', 'a!', 'z', '10', '9', '😀', 'a~']
 NUMS = [0, 1, -1, 2, 10, -10, 0.5, -0.5, 1e300, -1e300, 1e-300, 3.25, decimal.Decimal('2.5'), decimal.Decimal('-7.125'),
-        2 ** 40, -(2 ** 40), 0.0, -0.0, 123456789, decimal.Decimal('1E+2')]
+        2 ** 40, -(2 ** 40), 0.0, -0.0, 123456789, decimal.Decimal('1E+2'), -1e200, -1e250, -1.5e308, 1e250, -(2 ** 770), 2 ** 770,
+        float('-inf'), float('inf'), -3e231, -3.2e231]
 HUGE = [2 ** 53, 2 ** 53 + 1, 2 ** 53 + 2, -(2 ** 53) - 1]
 
 
